@@ -1,2 +1,40 @@
+"""Summaries used by the per-definition (T2) runs in place of interpreting a function body."""
+from __future__ import annotations
+
+import z3
+
+from pyvc.sym import zint
+
+
 def t2_summaries():
-    return {}
+    from contracts import bitbuffer
+
+    return dict(bitbuffer.t2_summaries())
+
+
+def canonical_leb_summaries():
+    """C02 is stated for canonical inputs (minimal LEB128). This wrapper interprets the real LEB128._read and
+    then *assumes* that the bytes it consumed were the minimal encoding (C02's explicit precondition)."""
+    from dissect.cstruct.types.leb128 import LEB128
+
+    real = LEB128._read.__func__
+
+    def leb_read(interp, cls, stream, context=None):
+        mark = len(stream.log)
+        v = interp.call_nosummary(real, [cls, stream, context])
+        reads = [e for e in stream.log[mark:] if e[0] == "read"]
+        bs = []
+        for e in reads:
+            # each read delivered exactly one byte on a returning path
+            bs.append(stream.data.byte_at(e[1]))
+        if len(bs) >= 2:
+            last, prev = zint(bs[-1]), zint(bs[-2])
+            ctx = interp.ctx
+            if cls.signed:
+                prev_sign = (prev / 64) % 2  # bit 6 of the previous byte
+                ctx.assume(z3.Not(z3.Or(z3.And(last == 0, prev_sign == 0), z3.And(last == 0x7F, prev_sign == 1))))
+            else:
+                ctx.assume(last != 0)
+        return v
+
+    return {real: leb_read}
